@@ -71,7 +71,7 @@ def doc_pool():
     p["microdvd"] = [docs.microdvd_doc([(25, 50, "Hello|world"), (75, 100, "Bye")]), docs.microdvd_doc([(10, 20, "x")], fps="23.976")]
     head = '<styling><style xml:id="s1" tts:color="red" tts:fontStyle="italic"/><style xml:id="s2" tts:textAlign="center"/><style xml:id="s3" tts:fontWeight="bold"/></styling><layout><region xml:id="r1" tts:origin="10% 20%" tts:extent="30% 40%"/><region xml:id="r2" tts:textAlign="center" tts:displayAlign="before"/></layout>'
     p["dfxp"] = [
-        docs.dfxp_doc([("en", [('begin="1s" end="2s" region="r1" style="s1 s2 s3"', 'a<br/><span region="r2" tts:fontStyle="italic" style="s3 s1">b</span>'), ('begin="3s" dur="1s" region="r2"', "c &amp; d")]), ("fr", [('begin="1s" end="2s"', "e")])], head=head),
+        docs.dfxp_doc([("en", [('begin="1s" end="2s" region="r1" style="s1 s2 s3"', 'a<br/><span region="r2" tts:fontStyle="italic" style="s3 s1">b</span>'), ('begin="3s" dur="1s" region="r2"', "c &amp; d"), ('begin="5s" end="6s"', '<span region="r1">f</span> <span region="r2">g</span>')]), ("fr", [('begin="1s" end="2s"', "e")])], head=head),
         docs.dfxp_doc([("de", [('begin="5s" end="6s"', "plain")])]),
         docs.dfxp_doc([("en", [('begin="1s" end="2s"', "ok"), ('end="2s"', "no begin: reader raises")])]),
         # two documents with textually identical <region> elements whose referenced style differs, and a root extent
@@ -82,6 +82,8 @@ def doc_pool():
         docs.sami_doc([(1000, [("en-US", "one"), ("fr-FR", "un")]), (2000, [("en-US", "&nbsp;")]), (2500, [("fr-FR", "deux<br/><i>d</i>")]), (3000, [("en-US", "three")])], ["en-US", "fr-FR"], class_css={"en-US": "margin-left: 2%; text-align: center; "}),
         docs.sami_doc([(1000, [("de-DE", "eins")]), (1500, [("es-ES", "uno"), ("en-US", "one")]), (2000, [("de-DE", "zwei")])], ["de-DE", "es-ES", "en-US"]),
         "<SAMI><BODY><SYNC><P class=ENCC>no start: reader raises</P></SYNC></BODY></SAMI>",
+        # no <STYLE> block at all
+        "<SAMI><BODY><SYNC start=1000><P>plain</P></SYNC><SYNC start=2000><P>&nbsp;</P></SYNC><SYNC start=3000><P>again</P></SYNC></BODY></SAMI>",
         # two classes declare the same language with different layouts (which one wins must not depend on hashing)
         docs.sami_doc([(1000, [("en-US", "one")]), (2000, [("en-US", "two")])], ["en-US"], class_css={"en-US": "margin-left: 2%; text-align: center; "}, extra_css=".ENALT { Name: alt; lang: en-US; margin-left: 9%; text-align: right; }\n.ENTHIRD { Name: third; lang: en-US; margin-top: 7%; text-align: left; }"),
     ]
@@ -108,7 +110,8 @@ READ_OPTS = {
     "sami": [{}],
     "scc": [{}, {"read": {"offset": 1, "simulate_roll_up": True}}],
 }
-EDITS = ["add_style", "caption_style", "style_dict", "append_caption", "node_text", "set_layout", "style_node_content"]
+REP_EXTRA = {("sami", 3)}  # further documents after which the quick tier also explores edits / writes (style-less SAMI)
+EDITS = ["add_style", "caption_style", "style_dict", "append_caption", "node_text", "set_layout", "style_node_content", "layout_inplace"]
 WRITES = ["DFXPWriter", "SAMIWriter", "WebVTTWriter"]
 
 
@@ -184,6 +187,19 @@ def do_edit(cs, kind):
                 if n.type_ == 2 and isinstance(n.content, dict):
                     n.content["injected"] = True
                     return
+    elif kind == "layout_inplace":
+        # the geometry objects of a caption are ordinary attribute-carrying objects: user code can change them in place
+        from pycaption.geometry import HorizontalAlignmentEnum
+
+        for c in caps:
+            for holder in [c] + list(c.nodes):
+                L = getattr(holder, "layout_info", None)
+                if L is not None and L.alignment is not None:
+                    L.alignment.horizontal = HorizontalAlignmentEnum.RIGHT if L.alignment.horizontal != HorizontalAlignmentEnum.RIGHT else HorizontalAlignmentEnum.LEFT
+                    return
+                if L is not None and L.origin is not None:
+                    L.origin.x.value = L.origin.x.value + 1
+                    return
     elif kind == "set_layout":
         cs.set_layout_info(lang, Layout(origin=Point(Size(1, UnitEnum.PERCENT), Size(2, UnitEnum.PERCENT))))
 
@@ -214,7 +230,7 @@ class World:
         """quick-tier menu: edits / writes only after representative reads (first document, default options of each
         format); a third read only with a reader class already used (instance reuse) or after an edit / write"""
         def rep(op):
-            return op[0] == "read" and op[2] == 0 and not op[3]
+            return op[0] == "read" and not op[3] and (op[2] == 0 or (op[1], op[2]) in REP_EXTRA)
 
         all_ops = self.enabled()
         reads_so_far = [o for o in hist if o[0] == "read"]
